@@ -139,6 +139,12 @@ for where in ("root", "nested"):
         if where == "root" and any(True for e in stored if e[2] == pipe.plain_root()): bad("failure", "%s: result stored for the failing function" % tag)
         if where == "nested" and stored: bad("failure", "%s: blobs stored although the only kept functions failed: %s" % (tag, stored))
         if api._eval_ctx is not None: bad("failure", "%s: evaluation context still set after the failure" % tag); api._eval_ctx = None
+        # the same failing evaluation once more: the store now holds the sub-results that completed before the failure
+        res, exc, ev, calls = run()
+        k = kinds(ev)
+        if exc is not pipe.FAIL[1]: bad("failure", "%s, evaluated a second time: propagated %r instead of the same exception object" % (tag, exc))
+        if "sync_paths" in k or s._paths: bad("failure", "%s, evaluated a second time (sub-results of the first attempt are in the store): paths committed by a failed evaluation: %s" % (tag, sorted(s._paths)))
+        if api._eval_ctx is not None: bad("failure", "%s (second attempt): evaluation context still set" % tag); api._eval_ctx = None
         pipe.FAIL = None
         # sub-results that completed before the failure are reused
         check_full("evaluation following '%s'" % tag, *run(), s, expect_calls=["root"] if where == "root" else ["root", "nested"])
